@@ -847,10 +847,10 @@ class Engine:
 
         flow_update_dict = dict(flow_updates)
 
-        # A process that is re-registered under another path while its
-        # old path is deleted has been moved: its schedule entry (the
-        # time it has been simulated to and its update in flight, if
-        # any) goes with it.
+        # A process that is re-registered while its old path is deleted
+        # has been moved (possibly there and back again): its schedule
+        # entry (the time it has been simulated to and its update in
+        # flight, if any) goes with it.
         moved_fronts = {}
         if process_updates and deletions:
             registered_at = {
@@ -859,7 +859,7 @@ class Engine:
             for path, process in process_updates:
                 old_path = registered_at.get(id(process))
                 if (
-                        old_path is not None and old_path != path
+                        old_path is not None
                         and old_path in self.front
                         and any(
                             starts_with(old_path, deletion)
